@@ -1061,6 +1061,9 @@ def check(ctx: Ctx):
         for member in ("interface_distance", "interface_curvature", "surface_area"):
             check_guard(ctx, cname, member)
         check_unitvec(ctx, cname)
+    from .c03 import check_shortcuts
+
+    check_shortcuts(ctx)
     check_complete(ctx)
     check_deriv_2d(ctx)
     check_volume_2d(ctx)
